@@ -117,7 +117,7 @@ def run(ctx):
         exe_a = build(ctx, "drv_tp_asan", [src, tpc, VS], flags=SHIM + ["-fsanitize=address,undefined", "-fno-sanitize-recover=undefined"])
         run_driver_checked(ctx, exe_a, [scr, ctx.path("tp_asan.ndjson")], what="drv_tp(asan)", replay_src=scr, timeout=6000, env={"ASAN_OPTIONS": "detect_leaks=0"})
     if os.path.exists(tr) and os.path.getsize(tr):
-        tl = [x for x in open(tr).read().split("\n") if x]
+        tl = [x for x in read_text(tr).split("\n") if x]
         div = sum(1 for x in tl if '"diverged":true' in x)
         ctx.cov["guided_schedules"] = nguided
         ctx.cov["guided_schedules_diverged"] = div
